@@ -39,9 +39,17 @@ theorem deterministic (source : List κ) (trace : List (Nat × Nat)) (r1 r2 : Li
     (h1 : argsort source trace = some r1) (h2 : argsort source trace = some r2) : r1 = r2 := by
   rw [h1] at h2; exact Option.some.inj h2
 
+/-- The same clause for the OTHER way to recover positions (clusters carry the positions of their leaves, a merge concatenates
+them): also a permutation for every merge trace. The check accepts a working tree whose answers replay through either scheme. -/
+theorem permutation_positions (n : Nat) (trace : List (Nat × Nat)) (t : Tree Nat)
+    (h : cluster trace ((List.range n).map Tree.leaf) = some [t]) :
+    ∃ res, argsortPos n trace = some res ∧ res.Perm (List.range n) :=
+  ⟨t.inorder, (argsortPos_perm n trace t h).1, (argsortPos_perm n trace t h).2⟩
+
 -- non-vacuity: the recorded trace of a 5-item run, and an input with a repeated id
 example : argsort [10, 20, 30, 40, 50] [(4, 0), (3, 1), (2, 1), (1, 0)] = some [4, 0, 2, 3, 1] := by decide
 example : argsort [7, 7, 8] [(2, 1), (1, 0)] = some [2, 0, 1] := by decide
+example : argsortPos 3 [(2, 1), (1, 0)] = some [2, 1, 0] ∧ argsortPos 2 [(1, 0)] = some [1, 0] := by decide
 example : ∃ t, cluster [(2, 1), (1, 0)] ([7, 7, 8].map Tree.leaf) = some [t] := ⟨_, rfl⟩
 
 end Hpv.Props.C13
